@@ -70,6 +70,14 @@ def decodeTimeout (s : Bytes) : Option Int :=
             if d == hour && t > maxHours then some maxInt64
             else some (d * t)
 
+/-- `ProxyForwarder.baseContext`: `if v := md.Get("grpc-timeout"); len(v) > 0 { … decodeTimeout(v[0]) … }` —
+    the FIRST value decides; `some d` = `context.WithTimeout(ctx, d)` (so `some 0` is a deadline that has
+    already passed), `none` = no deadline of the bridge's own (plain `WithCancel`). -/
+def callDeadline (vals : List Bytes) : Option Int :=
+  match vals with
+  | [] => none
+  | v :: _ => decodeTimeout v
+
 /-- The code before fix D14 (no digits-only guard): kept to state what was wrong. -/
 def decodeTimeoutPreFix (s : Bytes) : Option Int :=
   if s.length < minSize || s.length > maxSize then none
